@@ -206,6 +206,15 @@ func checkC06(c *Ctx) {
 		c.Control("SCANNER-ERR", nv == 1, "fixture.C06ScanNoErr loops on Scan() without Err() (and C06ScanErr, which checks it, is accepted)")
 	}
 	c.checkPair("PAIR", map[string]bool{"removeTip": true})
+	c.Decides("NO-BREAK: the list-file readers behind `prune -f` (parseTipsFile, parseStringFile, Readln) have no loop that is left by a break: every name of the file is kept")
+	for _, n := range []string{"parseTipsFile", "parseStringFile"} {
+		if fi := c.Func("cmd", "", n); fi != nil {
+			c.noBreakLoops("NO-BREAK", fi, "its tip set is exactly the requested one", "reads the requested names")
+		}
+	}
+	c.Floor("NO-BREAK", 2)
+	c.Decides("LASTLINE: the list-file readers shared by the commands (cmd/root.go, io/fileutils, io/utils) do not read lines with bufio ReadString/ReadBytes unless they handle io.EOF themselves: these return the last unterminated line together with io.EOF, which the `for err == nil` line loops never look at")
+	c.lastLineIn("its tip set is exactly the requested one", "cmd/prune.go")
 	c.Floor("PAIR", 4)
 	c.Floor("GF", 2)
 	c.Floor("PATH", 1)
